@@ -68,7 +68,7 @@ NATIVE = dict(
 # extra dev-dependencies written into the scratch copy's Cargo.toml (workspace members only: resolvable offline)
 NATIVE_DEV_DEPS = dict(rumqttd=['rumqttc = { path = "../rumqttc" }'])
 DIGEST_COPIES = {'topic-copies-agree': (3, ['C12'])}
-NATIVE_ENV = dict(quick=dict(VERIF_NMAX=3, VERIF_DEPTH=9, VERIF_TOPIC_LEN=4, VERIF_FILTER_LEN=4, VERIF_EVENT_DEPTH=3, VERIF_REQ_DEPTH=3, VERIF_DEC_ALL=2, VERIF_DEC_LEN=6, VERIF_CODEC_BIG=0, VERIF_LOG_DEPTH=7, VERIF_ADMIT_DEPTH=4), thorough=dict(VERIF_NMAX=4, VERIF_DEPTH=12, VERIF_TOPIC_LEN=5, VERIF_FILTER_LEN=4, VERIF_EVENT_DEPTH=4, VERIF_REQ_DEPTH=4, VERIF_DEC_ALL=3, VERIF_DEC_LEN=7, VERIF_CODEC_BIG=1, VERIF_LOG_DEPTH=9, VERIF_ADMIT_DEPTH=5))
+NATIVE_ENV = dict(quick=dict(VERIF_NMAX=3, VERIF_DEPTH=9, VERIF_TOPIC_LEN=4, VERIF_FILTER_LEN=4, VERIF_EVENT_DEPTH=3, VERIF_REQ_DEPTH=3, VERIF_DEC_ALL=2, VERIF_DEC_LEN=6, VERIF_CODEC_BIG=0, VERIF_LOG_DEPTH=7, VERIF_ADMIT_DEPTH=4, VERIF_BAD_DEPTH=3), thorough=dict(VERIF_NMAX=4, VERIF_DEPTH=12, VERIF_TOPIC_LEN=5, VERIF_FILTER_LEN=4, VERIF_EVENT_DEPTH=4, VERIF_REQ_DEPTH=4, VERIF_DEC_ALL=3, VERIF_DEC_LEN=7, VERIF_CODEC_BIG=1, VERIF_LOG_DEPTH=9, VERIF_ADMIT_DEPTH=5, VERIF_BAD_DEPTH=4))
 
 _CLIENT_STATE_TRUSTED = [
     'Kani 0.68 / CBMC 6.11 (bit-precise; machine arithmetic exact, overflow checks on)',
@@ -78,6 +78,14 @@ _CLIENT_STATE_TRUSTED = [
 ]
 
 PROPS = dict(
+    C14=dict(
+        level='exploration',
+        verus=[], kani=[], native=['rumqttd'],
+        scope='BOUNDED stand-in at router level: (1) a well-behaved QoS 1 publisher/subscriber pair keeps being served exactly, in order, and stays connected through every sequence of 3 misbehaviours of a third client (unsolicited acks, bad topics/filters, reconnects, flooding, stalled consumption, drops); (2) late Ready / DeviceData / Shadow / PublishWill / Disconnect signals of an ended connection after its slot was reused',
+        residual='link tasks and broker.rs::remote (async) — which late signals a real link can still emit — are not covered; only the router reaction is',
+        trusted_base=['rustc as compiled'],
+        assumptions=['BOUNDED stand-in: connection ids are slab slots recycled immediately; the code carries no generation counter a contract could refer to'],
+    ),
     C16=dict(
         level='exploration',
         verus=[], kani=[], native=['rumqttd'],
